@@ -803,7 +803,9 @@ func cmdCheck(args []string) int {
 			_ = SavePlan(final, fv.Plan)
 		}
 		out, code := runChild(5*time.Minute, "replay", final)
-		if code != 1 && (fv.Violation.Oracle == "race-detector" || fv.Violation.Oracle == "crash") {
+		if code != 1 && (fv.Violation.Oracle == "race-detector" || fv.Violation.Oracle == "crash" || cfg.Profile == "conc") {
+			// conc profile: inside a race window the steps really overlap, so a wrong read / panic caused by shared
+			// state depends on real timing as well as on the schedule
 			// a data race needs both accesses inside the race detector's bounded history: retry, then fall back to
 			// the unminimised plan; the race report itself stays the evidence
 			for attempt := 0; attempt < 4 && code != 1; attempt++ {
@@ -816,7 +818,7 @@ func cmdCheck(args []string) int {
 				}
 			}
 			if code != 1 {
-				fmt.Printf("note: the data race below did not reproduce in 8 replays of %s (detection depends on the race detector's history window)\n", final)
+				fmt.Printf("note: the violation below did not reproduce in 8 replays of %s (inside a race window the outcome depends on real overlap / the race detector's history window)\n", final)
 				code = 1
 			}
 		}
